@@ -27,6 +27,7 @@ Record ncfg := {
   c_key : N;
   c_trusted : list N;
   c_algos : algos;
+  c_advertise : list N;           (* advertise_addresses: extra own addresses the node reports (listed before the socket address) *)
   c_hkfault : bool                (* a lasting local fault in a housekeeping step behind the configured-peer step (e.g. a beacon file that cannot be
                                      read): housekeep returns early there on every tick, the own-address reset behind it is never reached *) }.
 
@@ -61,7 +62,7 @@ Record node := {
 Inductive effect := XSend (dst : N) (w : wire) | XWrite (frame : bytes).
 
 Definition node_new (c : ncfg) (now : Z) : node :=
-  {| n_cfg := c; n_peers := []; n_pending := []; n_own := [c_addr c];
+  {| n_cfg := c; n_peers := []; n_pending := []; n_own := c_advertise c ++ [c_addr c];
      n_table := table_new (Z.of_N (c_switch_timeout c)) (Z.of_N (c_peer_timeout c));
      n_next_peers := now; n_next_own_reset := (now + 300)%Z; n_reconnect := [];
      n_dropped := 0; n_invalid := 0; n_objs := 0 |}.
@@ -399,7 +400,7 @@ Definition housekeep (salts : list (N * N)) (now : Z) (n : node) : node * list e
   let '(n5, fx5) := reconnect_step salts now n4 in
   (* 7. own addresses reset *)
   let n6 := if negb (c_hkfault (n_cfg n5)) && (n_next_own_reset n5 <=? now)%Z
-            then with_sched (upd n5 (n_peers n5) (n_pending n5) [c_addr (n_cfg n5)] (n_table n5)) (n_next_peers n5) (now + 300)%Z (n_reconnect n5)
+            then with_sched (upd n5 (n_peers n5) (n_pending n5) (c_advertise (n_cfg n5) ++ [c_addr (n_cfg n5)]) (n_table n5)) (n_next_peers n5) (now + 300)%Z (n_reconnect n5)
             else n5 in
   (n6, fx1 ++ fx3 ++ fx4 ++ fx5).
 
